@@ -25,6 +25,15 @@
 /* Maximum dictionary size to prevent DoS via excessive memory allocation */
 #define VARINT_DICT_MAX_SIZE 1048576 /* 1M entries = 8MB for dict values */
 
+/* Read one tagged varint that must lie entirely inside [ptr, end).
+ * Returns its width, or 0 if the input ends before the varint does. */
+static inline varintWidth dictGetBounded(const uint8_t *ptr,
+                                         const uint8_t *end,
+                                         uint64_t *result) {
+    const size_t avail = (size_t)(end - ptr);
+    return varintTaggedGet(ptr, avail > 9 ? 9 : (int32_t)avail, result);
+}
+
 /* Check for overflow in size_t multiplication */
 static inline bool size_mul_overflow(size_t a, size_t b, size_t *result) {
     if (a == 0 || b == 0) {
@@ -234,7 +243,7 @@ uint64_t *varintDictDecode(const uint8_t *buffer, size_t bufferLen,
 
     /* Read dictionary size */
     uint64_t dictSize64;
-    varintWidth w = varintTaggedGet64(ptr, &dictSize64);
+    varintWidth w = dictGetBounded(ptr, end, &dictSize64);
     if (w == 0 || ptr + w > end) {
         return NULL;
     }
@@ -259,7 +268,7 @@ uint64_t *varintDictDecode(const uint8_t *buffer, size_t bufferLen,
     }
 
     for (uint32_t i = 0; i < dictSize; i++) {
-        w = varintTaggedGet64(ptr, &dictValues[i]);
+        w = dictGetBounded(ptr, end, &dictValues[i]);
         if (w == 0 || ptr + w > end) {
             free(dictValues);
             return NULL;
@@ -269,7 +278,7 @@ uint64_t *varintDictDecode(const uint8_t *buffer, size_t bufferLen,
 
     /* Read count */
     uint64_t count64;
-    w = varintTaggedGet64(ptr, &count64);
+    w = dictGetBounded(ptr, end, &count64);
     if (w == 0 || ptr + w > end) {
         free(dictValues);
         return NULL;
@@ -287,7 +296,7 @@ uint64_t *varintDictDecode(const uint8_t *buffer, size_t bufferLen,
     }
 
     /* Check if we have enough buffer for indices */
-    if (ptr + (count * indexWidth) > end) {
+    if (count > (size_t)(end - ptr) / indexWidth) {
         free(dictValues);
         return NULL;
     }
@@ -328,7 +337,7 @@ size_t varintDictDecodeInto(const uint8_t *buffer, size_t bufferLen,
 
     /* Read dictionary size */
     uint64_t dictSize64;
-    varintWidth w = varintTaggedGet64(ptr, &dictSize64);
+    varintWidth w = dictGetBounded(ptr, end, &dictSize64);
     if (w == 0 || ptr + w > end) {
         return 0;
     }
@@ -353,7 +362,7 @@ size_t varintDictDecodeInto(const uint8_t *buffer, size_t bufferLen,
     }
 
     for (uint32_t i = 0; i < dictSize; i++) {
-        w = varintTaggedGet64(ptr, &dictValues[i]);
+        w = dictGetBounded(ptr, end, &dictValues[i]);
         if (w == 0 || ptr + w > end) {
             free(dictValues);
             return 0;
@@ -363,7 +372,7 @@ size_t varintDictDecodeInto(const uint8_t *buffer, size_t bufferLen,
 
     /* Read count */
     uint64_t count64;
-    w = varintTaggedGet64(ptr, &count64);
+    w = dictGetBounded(ptr, end, &count64);
     if (w == 0 || ptr + w > end) {
         free(dictValues);
         return 0;
@@ -387,7 +396,7 @@ size_t varintDictDecodeInto(const uint8_t *buffer, size_t bufferLen,
     }
 
     /* Check buffer bounds */
-    if (ptr + (count * indexWidth) > end) {
+    if (count > (size_t)(end - ptr) / indexWidth) {
         free(dictValues);
         return 0;
     }
